@@ -295,6 +295,11 @@ pub struct Cfg {
     pub delay_ms: Vec<u64>,
     /// per-mille of read requests whose body stream breaks part-way (connection reset mid-body)
     pub body_break_pm: u32,
+    /// per-mille (per fault-eligible request) of the start of an outage: the next `outage_len` requests of that
+    /// node all fail before taking effect (the node is cut off from the store for a while)
+    pub outage_pm: u32,
+    pub outage_len: Vec<u32>,
+    pub outage_budget: u32,
     pub fault_budget: u32,
     /// nodes whose store requests may receive faults (empty = all)
     pub fault_nodes: Vec<u32>,
@@ -328,6 +333,9 @@ impl Default for Cfg {
             delay_pm: 0,
             delay_ms: vec![1, 100, 5_000, 90_000],
             body_break_pm: 0,
+            outage_pm: 0,
+            outage_len: vec![3, 8, 20],
+            outage_budget: 0,
             fault_budget: 0,
             fault_nodes: vec![],
             post_gates: false,
@@ -365,6 +373,8 @@ pub struct SimState {
     pub ev: u64,
     pub grants: u64,
     pub store_gate_ord: u64,
+    /// requests still to fail in the current outage, per node
+    pub outage_left: BTreeMap<u32, u32>,
     pub faults: BTreeMap<String, u64>,
     pub probes: BTreeMap<String, u64>,
     pub sched_sig: u64,
@@ -410,6 +420,7 @@ pub fn install(wtape: Tape, stape: Tape, keep_log: bool) {
         ev: 0,
         grants: 0,
         store_gate_ord: 0,
+        outage_left: BTreeMap::new(),
         faults: BTreeMap::new(),
         probes: BTreeMap::new(),
         sched_sig: 0xcbf29ce484222325,
@@ -541,6 +552,7 @@ pub fn store_gate_ord() -> u64 {
 pub fn faults_off() {
     with(|st| {
         st.cfg.enabled = false;
+        st.outage_left.clear();
         for x in st.stalled_until.iter_mut() {
             *x = 0;
         }
@@ -839,7 +851,27 @@ pub fn on_park() {
             if eligible_node {
                 st.store_gate_ord += 1;
             }
-            if let Some((n, f)) = st.cfg.forced {
+            // an outage in progress: this node's request fails whatever else would have been drawn
+            let mut in_outage = false;
+            if st.cfg.forced.is_none() && st.cfg.enabled && eligible_node {
+                if let Some(left) = st.outage_left.get_mut(&p.node) {
+                    if *left > 0 {
+                        *left -= 1;
+                        in_outage = true;
+                    }
+                }
+                if !in_outage && st.cfg.outage_pm > 0 && st.cfg.outage_budget > 0 && st.stape.draw(1000) < st.cfg.outage_pm {
+                    st.cfg.outage_budget -= 1;
+                    let len = st.cfg.outage_len[st.stape.draw(st.cfg.outage_len.len() as u32) as usize];
+                    st.outage_left.insert(p.node, len.saturating_sub(1));
+                    *st.faults.entry("store_outage_started".into()).or_insert(0) += 1;
+                    in_outage = true;
+                }
+            }
+            if in_outage {
+                fault = Fault::FailBefore;
+                *st.faults.entry("store_request_failed_in_outage".into()).or_insert(0) += 1;
+            } else if let Some((n, f)) = st.cfg.forced {
                 if eligible_node && n == ord {
                     fault = f;
                 }
